@@ -247,3 +247,108 @@ Theorem C18_heap_create_cache_node : forall (val : Type) (h : heap val) sh (k : 
     hcap h' = hcap h.
 Proof. exact (@create_spec). Qed.
 Print Assumptions C18_heap_create_cache_node.
+
+(** ** Concurrent use (Lfu/LfuConcModel.v): n threads, each executing a list of get / set
+    calls on ONE shared heap; a call is [with self.lock: <body>] ([impl_locked]) where the
+    body is the statement-level program of the heap model, one heap access per step
+    ([prim] / [prog]); [tstep impl cfg t] = one step of thread t (None: not enabled - finished
+    or waiting for the lock); a schedule is ANY list of thread ids ([exec]); [clog] records
+    (thread, call) at each lock acquisition; [lrun] is the sequential execution of a log. *)
+From DD Require Import Lfu.LfuConcModel Lfu.LfuConcProofs Lfu.LfuConcLin.
+
+(** the statement-level program of a call, run without interruption, IS the heap model's step *)
+Theorem C18_conc_body_is_heap_model : forall (val : Type) (o : op val) (h : heap val),
+  interp (op_prog o) h = hstep h o.
+Proof. exact op_prog_interp. Qed.
+Print Assumptions C18_conc_body_is_heap_model.
+
+(** EVERY schedule, EVERY reachable configuration: no call has raised; the configuration is
+    explained by the sequential execution of the logged calls in lock-acquisition order -
+    lock free: the heap IS that execution's heap; lock held by t: the heap is that of the
+    calls before t's, advanced by part of t's body, and finishing the body without
+    interruption gives exactly the sequential step; the values handed to each thread so
+    far are the sequential ones (at most the value being returned is pending) *)
+Theorem C18_conc_every_state : forall (val : Type) (c : nat) (progs : list (list (op val))) (sch : list tid) (cfg : config val),
+  1 <= c -> exec (@impl_locked val) (init (hempty c) progs) sch = Some cfg ->
+  any_crashed cfg = false /\
+  exists Ld hs res,
+    lrun (hempty c) Ld = Some (hs, res) /\
+    heap_repr hs (state_of c (map snd Ld)) /\
+    gets_only Ld res = snd (srun (sempty c) (map snd Ld)) /\
+    (forall t th, nth_error (threads cfg) t = Some th ->
+       exists pending, outs th ++ pending = proj t res /\ length pending <= 1) /\
+    match clock cfg with
+    | None => clog cfg = Ld /\ cheap cfg = hs
+    | Some t => exists th o p,
+        nth_error (threads cfg) t = Some th /\ cur th = Some (o, embed p (@fin val)) /\
+        clog cfg = Ld ++ [(t, o)] /\ interp p (cheap cfg) = hstep hs o
+    end.
+Proof. exact conc_every_state. Qed.
+Print Assumptions C18_conc_every_state.
+
+(** linearizability, lock acquisitions as linearization points: for EVERY schedule that
+    runs all threads to completion, the final heap is the heap of the SEQUENTIAL execution
+    of the calls in lock-acquisition order, that order is an interleaving of the threads'
+    programs, every value a get returned is the one the sequential execution returns
+    (= the abstract bounded-LFU spec's), nothing raised, and the heap represents the
+    bucket-list state after those calls *)
+Theorem C18_conc_linearizable : forall (val : Type) (c : nat) (progs : list (list (op val))) (sch : list tid) (cfg : config val),
+  1 <= c -> exec (@impl_locked val) (init (hempty c) progs) sch = Some cfg -> all_done cfg = true ->
+  exists res,
+    lrun (hempty c) (clog cfg) = Some (cheap cfg, res) /\
+    Forall (fun x => fst x < length progs) (clog cfg) /\
+    (forall t th P, nth_error (threads cfg) t = Some th -> nth_error progs t = Some P ->
+       proj t (clog cfg) = P /\ outs th = proj t res /\ crashed th = false) /\
+    heap_repr (cheap cfg) (state_of c (map snd (clog cfg))) /\
+    gets_only (clog cfg) res = snd (srun (sempty c) (map snd (clog cfg))).
+Proof. exact conc_linearizable. Qed.
+Print Assumptions C18_conc_linearizable.
+
+(** whenever the lock is free the shared heap satisfies the bounded-LFU invariants *)
+Theorem C18_conc_quiescent_invariants : forall (val : Type) (c : nat) (progs : list (list (op val))) (sch : list tid) (cfg : config val),
+  1 <= c -> exec (@impl_locked val) (init (hempty c) progs) sch = Some cfg -> clock cfg = None ->
+  let s := state_of c (map snd (clog cfg)) in
+  heap_repr (cheap cfg) s /\
+  StronglySorted lt (map freq (buckets s)) /\
+  Forall (fun b => items b <> []) (buckets s) /\
+  NoDup (map fst (flat_map items (buckets s))) /\
+  size s <= cap s /\ cap s = c.
+Proof. exact conc_quiescent_invariants. Qed.
+Print Assumptions C18_conc_quiescent_invariants.
+
+(** what the proof needs from the code - and what the harness's recording-lock monitor
+    observes on lfucache.py on every run: a thread about to access the heap holds the lock *)
+Theorem C18_conc_accesses_under_lock : forall (val : Type) (c : nat) (progs : list (list (op val))) (sch : list tid) (cfg : config val)
+    (t : tid) (th : thread val) (o : op val) (B : Type) (pr : prim val B) (k : B -> cprog val),
+  1 <= c -> exec (@impl_locked val) (init (hempty c) progs) sch = Some cfg ->
+  nth_error (threads cfg) t = Some th -> cur th = Some (o, CAct pr k) -> clock cfg = Some t.
+Proof. exact conc_accesses_under_lock. Qed.
+Print Assumptions C18_conc_accesses_under_lock.
+
+(** no deadlock: while some thread has calls left, some thread can step *)
+Theorem C18_conc_no_deadlock : forall (val : Type) (c : nat) (progs : list (list (op val))) (sch : list tid) (cfg : config val),
+  1 <= c -> exec (@impl_locked val) (init (hempty c) progs) sch = Some cfg -> all_done cfg = false ->
+  exists t cfg', tstep (@impl_locked val) cfg t = Some cfg'.
+Proof. exact conc_no_deadlock. Qed.
+Print Assumptions C18_conc_no_deadlock.
+
+(** the lock must cover the dict lookup: with [impl_readfirst] (lookup, THEN acquire; body;
+    release) two sets of the same absent key can both create a node - all calls return
+    normally and the final heap represents NO cache state at all ... *)
+Theorem C18_conc_readfirst_set_refuted :
+  exists (c : nat) (progs : list (list (op Z))) (sch : list tid) (cfg : config Z),
+    1 <= c /\
+    exec (@impl_readfirst Z) (init (hempty c) progs) sch = Some cfg /\
+    all_done cfg = true /\ any_crashed cfg = false /\
+    forall s, ~ heap_repr (cheap cfg) s.
+Proof. exact readfirst_set_refuted. Qed.
+Print Assumptions C18_conc_readfirst_set_refuted.
+
+(** ... and a get whose key is evicted between its lookup and its acquire raises *)
+Theorem C18_conc_readfirst_get_refuted :
+  exists (c : nat) (progs : list (list (op Z))) (sch : list tid) (cfg : config Z),
+    1 <= c /\
+    exec (@impl_readfirst Z) (init (hempty c) progs) sch = Some cfg /\
+    any_crashed cfg = true.
+Proof. exact readfirst_get_refuted. Qed.
+Print Assumptions C18_conc_readfirst_get_refuted.
